@@ -71,7 +71,7 @@ DEPTH_RE = re.compile(r'depth of the complete state graph search is (\d+)')
 def tlc(module, cfg, scratch, env=None, workers=1, heap='3g', timeout=3600, extra=(), tag=None, gcthreads=2):
     """Runs TLC; returns dict(rc, out, generated, distinct, depth, secs, cmd)."""
     meta = tempfile.mkdtemp(prefix='meta-', dir=scratch)
-    cmd = ['java', '-Xmx' + heap, '-Xss64m', '-XX:+UseParallelGC', '-XX:ParallelGCThreads=%d' % gcthreads, '-XX:CICompilerCount=2',
+    cmd = ['java', '-Djava.io.tmpdir=' + meta, '-Xmx' + heap, '-Xss64m', '-XX:+UseParallelGC', '-XX:ParallelGCThreads=%d' % gcthreads, '-XX:CICompilerCount=2',
            '-DTLA-Library=' + ':'.join([SPEC, os.path.join(SPEC, 'trace'), os.path.join(SPEC, 'mc')]),
            '-cp', JAR, 'tlc2.TLC', '-noGenerateSpecTE', '-workers', str(workers), '-metadir', meta,
            '-config', cfg] + list(extra) + [module]
@@ -204,7 +204,7 @@ def context_events(path, index):
                 target = e
                 break
             op = e['op']
-            if op.endswith('.set'):
+            if op.endswith('.set') or op.endswith('.univ'):
                 sets[op] = e
             elif op.endswith('.reset'):
                 hist = [e]
